@@ -257,6 +257,16 @@ def judge_alignment(ck, rng, fn, dn, src, tgt, X, Mtrue, noise, true_scaled, kla
                    "sse_returned": sse_g, "sse_reference": sse_r, "reflection_case": bool(refl)})
 
 
+AUTOGRAD_MODES = ("plain", "source-requires-grad", "plain", "target-requires-grad", "no_grad", "both-require-grad", "plain")
+
+
+def no_grad_call(f):
+    def g():
+        with torch.no_grad():
+            return f()
+    return g
+
+
 def run_alignment(ck, rng, dn, thorough):
     reps = 240 if thorough else 36
     nper = 50 if thorough else 24
@@ -285,10 +295,19 @@ def run_alignment(ck, rng, dn, thorough):
                 S = np.stack([it[2] for it in items]).reshape(bshape + (n, 3))
                 Tg = np.stack([it[3] for it in items]).reshape(bshape + (n, 3))
                 ts, tg = tt(S, dn), tt(Tg, dn)
+                # how the clouds take part in autograd does not change the returned transform
+                amode = AUTOGRAD_MODES[case % len(AUTOGRAD_MODES)]
+                if amode in ("source-requires-grad", "both-require-grad"):
+                    ts.requires_grad_(True)
+                if amode in ("target-requires-grad", "both-require-grad"):
+                    tg.requires_grad_(True)
+                ck.mark("autograd/" + amode)
                 call = (lambda: pp.svdtf(ts, tg)) if fn == "svdtf" else (lambda: pp.svdstf(ts, tg)) if fn == "svdstf" \
                     else (lambda: pp.svdstf(ts, tg, with_scale=False))
+                if amode == "no_grad":
+                    call = no_grad_call(call)
                 reg0 = f"{fn}/{dn}/batch-rank{len(bshape)}"
-                wit0 = {"fn": fn, "dtype": dn, "N": n, "batch": list(bshape), "kinds": [it[0] for it in items],
+                wit0 = {"fn": fn, "dtype": dn, "N": n, "batch": list(bshape), "autograd": amode, "kinds": [it[0] for it in items],
                         "noise": [it[1] for it in items], "source": S if S.size <= 90 else None, "target": Tg if Tg.size <= 90 else None}
                 okc, out = ck.call("call", reg0, fn + ("(batch rank>=2)" if len(bshape) >= 2 else ""), call, witness=wit0)
                 if not okc:
@@ -338,9 +357,15 @@ def run_reflection_stress(ck, rng, dn, thorough):
                 S = np.stack([it[0] for it in items])
                 Tg = np.stack([it[1] for it in items])
                 reg = f"{fn}/{dn}/reflection-stress/N:{n}"
-                wit0 = {"fn": fn, "dtype": dn, "N": n, "batch": [B]}
-                okc, out = ck.call("call", reg, fn, (lambda: pp.svdtf(tt(S, dn), tt(Tg, dn))) if fn == "svdtf"
-                                   else (lambda: pp.svdstf(tt(S, dn), tt(Tg, dn))), witness=wit0)
+                amode = ("plain", "source-requires-grad", "target-requires-grad")[(case + rep) % 3]
+                tS, tT = tt(S, dn), tt(Tg, dn)
+                if amode == "source-requires-grad":
+                    tS.requires_grad_(True)
+                if amode == "target-requires-grad":
+                    tT.requires_grad_(True)
+                ck.mark("autograd/stress/" + amode)
+                wit0 = {"fn": fn, "dtype": dn, "N": n, "batch": [B], "autograd": amode}
+                okc, out = ck.call("call", reg, fn, (lambda: pp.svdtf(tS, tT)) if fn == "svdtf" else (lambda: pp.svdstf(tS, tT)), witness=wit0)
                 if not okc:
                     continue
                 width = 7 if fn == "svdtf" else 8
@@ -404,6 +429,10 @@ def run_icp(ck, rng, thorough):
             n = int(rng.choice([4, 6, 12, 40, int(rng.integers(4, 201))]))
             if not thorough:
                 n = min(n, 90)
+            if mode in ("recover", "noisy") and rep % 40 == 1:
+                # scan-sized clouds (beyond the 200 points of the other cases): sizes that are not a multiple of any power-of-two block
+                n = int(rng.choice([1100, 1500, 2100]))
+                ck.mark("ICP/scan-sized-cloud")
             nb = int(rng.integers(2, 4)) if mode == "batched" else 1
             srcs, tgts, trues, inits = [], [], [], []
             m_extra = int(rng.integers(1, n + 1)) if mode in ("recover+superset", "partial") else 0
@@ -623,6 +652,8 @@ def run(ck):
                    f"{fn}/batch-rank0", f"{fn}/batch-rank1", f"{fn}/batch-rank2")
     for dn in ("f64", "f32"):
         ck.require(f"svdtf/{dn}/reflection-stress", f"svdstf/{dn}/reflection-stress", minimum=2000)
+    ck.require("autograd/source-requires-grad", "autograd/target-requires-grad", "autograd/no_grad", "autograd/stress/source-requires-grad")
+    ck.require("ICP/scan-sized-cloud")
     ck.require("ICP/after-call-with-forward-init", "ICP/recover", "ICP/recover+init", "ICP/recover+superset", "ICP/far", "ICP/noisy", "ICP/partial", "ICP/short-stepper",
                "ICP/batched", "ICP/init:none", "ICP/init:constructor", "ICP/init:forward", "ICP/reused-object",
                "ICP/recovered-inside-basin", "ICP/strictly-improved",
